@@ -285,6 +285,21 @@ def check_trace(chk, recs, ctxs, label="TraceTimeCorr", max_rejects=4):
         offset += idx + 1
 
 
+def corrupt_one_field(chk, recs):
+    """Binding self-test of the trace spec: one observed time-axis entry of one record is changed;
+    TraceTimeCorr must reject exactly that record with clause TimeAxis."""
+    cand = [r for r in recs if r["T"] >= 2 and r["obs"]["rows"] == r["T"]][:3]
+    if len(cand) < 3:
+        return
+    bad = json.loads(json.dumps(cand))
+    bad[1]["obs"]["tq"][-1] += 1
+    r, rej, _ = validate_records(bad)
+    chk.add_tlc(r, "TraceTimeCorr corrupt-one-field")
+    if rej is None or rej[0] != 1 or rej[1] != "TimeAxis":
+        raise MachineryError(f"corrupted trace record was not rejected at that record (got {rej})")
+    chk.extra["corrupt_one_field_rejected"] = True
+
+
 # --------------------------------------------------------------------------
 # entry point
 # --------------------------------------------------------------------------
@@ -337,7 +352,7 @@ def run(tier, replay=None):
         if printed:
             print("expected kind     :", printed[0]["kind"])
             print("expected time_corr:", [ev(t) for t in printed[0]["corr"]])
-            print("expected t        :", [(x - rec["ts"][0]) * dt for x in rec["ts"]])
+            print("expected t        :", [ev(t) for t in printed[0]["tT"]])
         if rej:
             print("trace spec rejects the record, clause:", rej[1])
         check_trace(chk, recs, ctxs)
@@ -346,7 +361,7 @@ def run(tier, replay=None):
     # ---- direction A: model checking + emission + replay
     csvdir = common.scratch_dir("verif_c14csv_")
     try:
-        nsh = 8 if tier == "quick" else 16
+        nsh = 8
         kinds = {"linear": 0, "log": 0}
         conj = 0
         for part in ("fam", "exh"):
@@ -385,5 +400,8 @@ def run(tier, replay=None):
         recs.append(rec)
         ctxs.append(ctx)
     check_trace(chk, recs, ctxs)
+    corrupt_one_field(chk, recs)
+    if tier == "thorough" and chk.coverage_actions.get("Acc", 0) == 0:
+        raise MachineryError("action Acc has zero coverage: the loop state machine was not exercised")
     chk.samples.append({"trace_record": {k: recs[0][k] for k in ("T", "N", "rank", "dim", "cplx", "ts", "dt", "obs")}})
     return chk.finish()
